@@ -206,7 +206,10 @@ class ImplSession:
         d = self.dispatcher
         subs = []
         if self.env is None:
+            foreign = self.__dict__.get("foreign", [])
             for s in d.subscribers:
+                if any(s is f for f in foreign):
+                    continue
                 idx = [i for i, o in enumerate(self.objs) if o is s]
                 subs.append(idx[0] if idx else 10 ** 6)
         return [enc_dstate(d), d.schedule.is_complete(), d.schedule.makespan(),
@@ -305,6 +308,19 @@ class ImplSession:
                 out = idx[0] if idx else self._register(o)
             elif tag == 9:
                 self.evaluate_rule(ev[1])
+                return []
+            elif tag == 11:
+                # a ResidualGraphUpdater (with the observers it creates or gets) attached to the dispatcher; it is
+                # kept OUT of the model world: whatever it does on its own graph, the dispatcher's answers and the
+                # other observers must be what they are without it
+                from job_shop_lib import graphs
+                from job_shop_lib.graphs.graph_updaters import ResidualGraphUpdater
+
+                before = list(d.subscribers)
+                g = getattr(graphs, GRAPH_BUILDERS[ev[1] % 4])(self.instance)
+                self.foreign_updater = ResidualGraphUpdater(d, g)
+                foreign = self.__dict__.setdefault("foreign", [])
+                foreign.extend(o for o in d.subscribers if not any(o is b for b in before))
                 return []
             elif tag == 10:
                 # a constructor call that is rejected (ValidationError): a feature observer asked for a feature
@@ -480,4 +496,6 @@ def run_session(spec, filters, events, env=None):
 
 
 def model_case(spec, filters, events):
-    return (1, [spec, filters, events])
+    # event 11 (a library observer attached outside the model world: it must not influence the dispatcher) is
+    # a no-op for the model
+    return (1, [spec, filters, [[9, 0] if ev[0] == 11 else ev for ev in events]])
